@@ -525,6 +525,9 @@ func (ex *Exec) globalObj(st *State, g *ssa.Global) int {
 	}
 	if _, ok := et.Underlying().(*types.Interface); ok {
 		val = IfaceV{T: et, V: OpaqueV{"global:" + g.String(), 0}}
+		if gs := g.String(); gs == "io.EOF" || gs == "io.ErrUnexpectedEOF" {
+			val = errVal(gs) // the same value the stream intrinsics return
+		}
 	}
 	id, ok := ex.globals[g]
 	if !ok {
@@ -1795,10 +1798,27 @@ func (ex *Exec) binop(st *State, op token.Token, x, y Value, xt types.Type, pos 
 			return Not(strLess(sx, sy)), true
 		case token.ADD:
 			// concatenation: content not tracked, only whether it may carry an unsafe character
+			n := Add(strLenT(sx), strLenT(sy))
+			u := Or(ex.taintOf(st, sx, 0), ex.taintOf(st, sy, 0)) // literals of the program are markup
+			if strMax(sx)+strMax(sy) <= 64 {
+				// short strings: the content is tracked exactly
+				arr := AConst(8, 0)
+				put := func(arr *Term, off *Term, v StringV) *Term {
+					if v.Sym {
+						return ACopy(arr, off, v.Arr, Const(64, 0), v.Len)
+					}
+					for i := 0; i < len(v.S); i++ {
+						arr = AStore(arr, Add(off, Const(64, uint64(i))), Const(8, uint64(v.S[i])))
+					}
+					return arr
+				}
+				arr = put(arr, Const(64, 0), sx)
+				arr = put(arr, strLenT(sx), sy)
+				return StringV{Sym: true, Arr: arr, Len: n, Max: strMax(sx) + strMax(sy), U: u}, true
+			}
 			ex.fresh++
 			nm := fmt.Sprintf("cat!%d", ex.fresh)
-			n := Add(strLenT(sx), strLenT(sy))
-			return StringV{Sym: true, Arr: AVar(nm, 8), Len: n, Max: strMax(sx) + strMax(sy), U: Or(ex.taintOf(st, sx, 0), ex.taintOf(st, sy, 0))}, true // literals of the program are markup
+			return StringV{Sym: true, Arr: AVar(nm, 8), Len: n, Max: strMax(sx) + strMax(sy), U: u}, true
 		}
 		panic("symbolic string op " + op.String())
 	}
@@ -2417,6 +2437,27 @@ func (ex *Exec) havoc(st *State, t types.Type, why string) Value {
 func (ex *Exec) builtin(st *State, b *ssa.Builtin, args []Value, in *ssa.Call, pos token.Pos) bool {
 	fr := st.top()
 	switch b.Name() {
+	case "recover":
+		// a panic ends the path in this executor, so deferred code never runs with one in flight
+		fr.env[in] = IfaceV{}
+	case "min", "max":
+		// integer operands only
+		r := args[0].(*Term)
+		signed := isSigned(in.Call.Args[0].Type())
+		for _, a := range args[1:] {
+			t := a.(*Term)
+			var less *Term
+			if signed {
+				less = Slt(t, r)
+			} else {
+				less = Ult(t, r)
+			}
+			if b.Name() == "max" {
+				less = Not(Or(less, Eq(t, r)))
+			}
+			r = Ite(less, t, r)
+		}
+		fr.env[in] = r
 	case "len":
 		switch x := args[0].(type) {
 		case SliceV:
